@@ -303,13 +303,69 @@ theorem C06_find_eq_scan (within : List Pt → Pt → Bool) (n : Net) (hs : Sync
 /-- The same for `find_lanelet_by_shape` with a Circle / Polygon / Rectangle. -/
 theorem C06_findShape_eq_scan (meets : List Pt → Prim → Bool) (n : Net) (hs : Sync n) (s : Prim) :
     findByShape meets n (.prim s) = .ok ((n.lanelets.filter (fun l => meets l.poly.ring s)).map (·.id)) := by
-  unfold findByShape
+  unfold findByShape findPrim
   rw [tree_sync hs]
   exact scan_sync hs (fun ring => meets ring s)
 
-/-- A ShapeGroup is refused by the documented assertion. -/
-theorem C06_findShape_group (meets : List Pt → Prim → Bool) (n : Net) (ss : List Prim) :
-    findByShape meets n (.group ss) = .error .assert := rfl
+theorem mem_appendNew (res ids : List Int) (i : Int) : i ∈ appendNew res ids ↔ i ∈ res ∨ i ∈ ids := by
+  induction ids generalizing res with
+  | nil => simp [appendNew]
+  | cons a as ih =>
+    simp only [appendNew, ih, List.mem_cons]
+    by_cases h : a ∈ res
+    · simp only [h, if_true]
+      constructor
+      · rintro (h1 | h1) <;> [exact Or.inl h1; exact Or.inr (Or.inr h1)]
+      · rintro (h1 | h1 | h1)
+        · exact Or.inl h1
+        · subst h1; exact Or.inl h
+        · exact Or.inr h1
+    · simp only [h, if_false, List.mem_append, List.mem_singleton]
+      tauto
+
+theorem nodup_appendNew (res ids : List Int) (h : res.Nodup) : (appendNew res ids).Nodup := by
+  induction ids generalizing res with
+  | nil => simpa [appendNew]
+  | cons a as ih =>
+    simp only [appendNew]
+    apply ih
+    by_cases ha : a ∈ res
+    · simpa [ha] using h
+    · simp only [ha, if_false]
+      exact List.nodup_append.mpr ⟨h, by simp, by intro x hx y hy; simp at hy; subst hy; intro hxy; exact ha (hxy ▸ hx)⟩
+
+/-- A ShapeGroup query on a synchronised index returns, each once, exactly the lanelets whose polygon meets
+    SOME member of the group (the group denotes the union of its shapes), and never fails. -/
+theorem C06_findShape_group (meets : List Pt → Prim → Bool) (n : Net) (hs : Sync n) (ss : List Prim) :
+    ∃ r, findByShape meets n (.group ss) = .ok r ∧ r.Nodup ∧
+      ∀ i, i ∈ r ↔ ∃ l ∈ n.lanelets, l.id = i ∧ ss.any (meets l.poly.ring) = true := by
+  have key : ∀ (ss : List Prim) (res : List Int), res.Nodup →
+      ∃ r, findGroup meets n res ss = .ok r ∧ r.Nodup ∧
+        ∀ i, i ∈ r ↔ i ∈ res ∨ ∃ l ∈ n.lanelets, l.id = i ∧ ss.any (meets l.poly.ring) = true := by
+    intro ss
+    induction ss with
+    | nil => intro res h; exact ⟨res, rfl, h, by simp⟩
+    | cons s ss ih =>
+      intro res h
+      have hp := C06_findShape_eq_scan meets n hs s
+      simp only [findByShape] at hp
+      simp only [findGroup, hp]
+      obtain ⟨r, hr, hnd, hmem⟩ := ih _ (nodup_appendNew res _ h)
+      refine ⟨r, hr, hnd, ?_⟩
+      intro i
+      rw [hmem, mem_appendNew]
+      simp only [List.mem_map, List.mem_filter, List.any_cons, Bool.or_eq_true]
+      constructor
+      · rintro ((h1 | ⟨l, ⟨hl, hm⟩, rfl⟩) | ⟨l, hl, rfl, hm⟩)
+        · exact Or.inl h1
+        · exact Or.inr ⟨l, hl, rfl, Or.inl hm⟩
+        · exact Or.inr ⟨l, hl, rfl, Or.inr hm⟩
+      · rintro (h1 | ⟨l, hl, rfl, (hm | hm)⟩)
+        · exact Or.inl (Or.inl h1)
+        · exact Or.inl (Or.inr ⟨l, ⟨hl, hm⟩, rfl⟩)
+        · exact Or.inr ⟨l, hl, rfl, hm⟩
+  obtain ⟨r, hr, hnd, hmem⟩ := key ss [] List.nodup_nil
+  exact ⟨r, hr, hnd, by intro i; rw [hmem]; simp⟩
 
 /-- End to end: a network built from scratch by any admissible sequence of rebuilding operations answers position
     queries by the scan of its current lanelets. -/
